@@ -23,6 +23,19 @@ pub fn trim_range(s: &str, mut rng: Range<usize>) -> Range<usize> {
     rng
 }
 
+/// The number of characters between the start of the line and byte position `i`.
+pub fn column_at(s: &str, i: usize) -> usize {
+    s[line_start(s, i)..i].chars().count()
+}
+
+fn line_start(s: &str, i: usize) -> usize {
+    s[..i]
+        .char_indices()
+        .rev()
+        .find(|(_, c)| typst_syntax::is_newline(*c))
+        .map_or(0, |(pos, c)| pos + c.len_utf8())
+}
+
 pub fn count_spaces_after_last_newline(s: &str, i: usize) -> usize {
     // Ensure the byte position `i` is a valid UTF-8 boundary
     debug_assert!(
@@ -31,13 +44,11 @@ pub fn count_spaces_after_last_newline(s: &str, i: usize) -> usize {
     );
 
     // Find the start of the line that contains position `i` (the first line has no newline before it)
-    let line_start = s[..i]
-        .char_indices()
-        .rev()
-        .find(|(_, c)| typst_syntax::is_newline(*c))
-        .map_or(0, |(pos, c)| pos + c.len_utf8());
     // Count the number of consecutive spaces at the start of that line
-    s[line_start..i].chars().take_while(|&c| c == ' ').count()
+    s[line_start(s, i)..i]
+        .chars()
+        .take_while(|&c| c == ' ')
+        .count()
 }
 
 #[cfg(test)]
